@@ -157,6 +157,21 @@ fn prec_cases() -> Vec<(String, String)> {
         }
         v.push((format!("a {} f(b)", o1), format!("a {} (f(b))", o1)));
         v.push((format!("f(a) {} b.c", o1), format!("(f(a)) {} (b.c)", o1)));
+        // call / index / field access on a right operand that does not start with an identifier
+        v.push((format!("a {} (b, c)[1]", o1), format!("a {} ((b, c)[1])", o1)));
+        v.push((format!("a {} (b)(c)", o1), format!("a {} ((b)(c))", o1)));
+        v.push((format!("a {} (b).c", o1), format!("a {} ((b).c)", o1)));
+        // a unary operand on the right, followed by a tighter / looser operator
+        for (o2, r2) in BIN.iter() {
+            for u in ["not", "-"].iter() {
+                // the operand of a unary operator is parsed at the level of `* /` (documented: unary
+                // binds tighter than + -, comparisons and the boolean operators)
+                let full = if *r2 == 6 { format!("a {} ({} (b {} c))", o1, u, o2) }
+                    else if r1 >= r2 { format!("(a {} ({} b)) {} c", o1, u, o2) }
+                    else { format!("a {} (({} b) {} c)", o1, u, o2) };
+                v.push((format!("a {} {} b {} c", o1, u, o2), full));
+            }
+        }
     }
     v
 }
